@@ -4542,6 +4542,7 @@ int main(int argc, char** argv) {
     MacProOutput    = False;
     CodeOutput      = True;
     strcpy(ErrorPath, "!2");
+    strcpy(ErrorName, ErrorPath);
     MsgIfRepass           = False;
     QuietMode             = False;
     NumericErrors         = False;
@@ -4589,6 +4590,7 @@ int main(int argc, char** argv) {
     asmlist_init();
 
     GlobErrFlag = False;
+    CloseIfOpen(&ErrorFile);
     if (ErrorPath[0] != '\0') {
         strcpy(ErrorName, ErrorPath);
         unlink(ErrorName);
